@@ -286,6 +286,15 @@ func vrBuild(t int) vrCase {
 		faulty := []bool{ta != 0, true, ta != 0}[kind]
 		return vrCase{progs[kind], faulty, fmt.Sprintf("spawn/member kind%d %s", kind, vrTypes[ta]), ""}
 	}
+	if t == 25 { // a type alias defined in an inner scope shadows an outer alias of the same name only inside that scope
+		outer, inner, useIn, useOut := nd("outer", 0, 3), nd("inner", 0, 3), nd("useInner", 0, 3), nd("useOuter", 0, 3)
+		pos := nd("pos", 0, 2)
+		open := []string{"  {\n", "  if 1 < 2 {\n", "  for k in 0..1 {\n"}[pos]
+		code := "type Id = " + vrTypes[outer] + ";\nfn main() {\n" + open +
+			"    type Id = " + vrTypes[inner] + ";\n    let b: Id = " + vrLits[useIn] + ";\n    println(b);\n  }\n" +
+			"  let c: Id = " + vrLits[useOut] + ";\n  println(c);\n}\n"
+		return vrCase{code, useIn != inner || useOut != outer, fmt.Sprintf("alias-shadowing outer=%s inner=%s uses %s/%s @%d", vrTypes[outer], vrTypes[inner], vrTypes[useIn], vrTypes[useOut], pos), ""}
+	}
 	return vrCase{vrMain("  println(1);\n"), false, "trivial", ""}
 }
 
@@ -303,7 +312,7 @@ func vsReplaceArg(tmpl, arg string) string {
 	return out
 }
 
-const vrTemplates = 25
+const vrTemplates = 26
 
 func VerifHarness_Rules() {
 	t := errors.VerifNdIntRange("template", 0, vrTemplates-1)
